@@ -165,6 +165,7 @@ pub fn handle(op: &str, a: &[&str]) -> Option<String> {
             Some(format!("{}|{}", show_list(f), blocksummary(l)))
         }
         // exponents passed to exp_modn (s) / exp_modn_large (l) by stage 1 of pm1_impl, in order
+        // (recorded at the entry of these functions, hook in pollard_pm1.rs)
         ("pm1_exponents", [b1]) => {
             let b1 = u64_of(b1)?;
             let n = Uint::from_str(SAFE_PRIME).ok()?;
@@ -172,7 +173,12 @@ pub fn handle(op: &str, a: &[&str]) -> Option<String> {
             let r = std::panic::catch_unwind(|| {
                 yamaquasi::pollard_pm1::pm1_impl(&n, b1, 0.0, Verbosity::Silent)
             });
-            let evs = yamaquasi::pollard_pm1::verif_hooks::vh_rec_take();
+            let mut evs = yamaquasi::pollard_pm1::verif_hooks::vh_rec_take();
+            // stage 1 ends with the exp_modn_large call made at `stop`; what follows (one
+            // exp_modn(g, p_prev) at the start of stage 2) is not part of the stream
+            if let Some(i) = evs.iter().rposition(|(small, _)| !*small) {
+                evs.truncate(i + 1);
+            }
             match r {
                 Err(_) => Some("panic".to_string()),
                 Ok(Some(_)) => Some("unexpected-factor".to_string()),
